@@ -1,7 +1,7 @@
 (* C14 — Line-break style does not change the parse.  (theorems: Proofs/BreakProofs.v) *)
 From Coq Require Import List NArith Bool.
 Import ListNotations.
-Require Import Positions BreakProofs.
+Require Import Parser SBase SFetch Pipe Positions BreakProofs ScanBrk ScanBrkParse ScanBrkTop ScanBrkAll.
 Open Scope N_scope.
 
 (* Line and column of the image of a position are unchanged when every LF is replaced by CR LF or by CR:
@@ -10,3 +10,33 @@ Theorem C14_positions_crlf : forall s n,
   Forall (fun c => c <> 13) s -> pos_go (crlf s) (length (crlf (firstn n s))) 1 0 = pos_go s (Nat.min n (length s)) 1 0.
 Proof. exact pos_crlf. Qed.
 Print Assumptions C14_positions_crlf.
+
+(* SCANNER + PARSER LEVEL.  For every CR-free text x and both substitutions, the model pipeline delivers the same
+   events - EVR: equal event (kind, scalar text with breaks as line feeds, style, anchor id, tag) and spans that agree
+   in LINE and COLUMN (only the character index differs) - and ends the same way - PER: both PDone, or the same
+   scan / parse error site at markers with the same line and column -, unless one of the two runs ends in a panic
+   (running out of fuel is excluded by C01_pipeline_terminates_linear, already discharged inside the lemma).
+   MR m1 m2 := m_line m1 = m_line m2 /\ m_col m1 = m_col m2. *)
+Theorem C14_pipeline_crlf : forall x : list chr, nocr x ->
+  is_panic (snd (run_str x)) \/ is_panic (snd (run_str (crlf x))) \/
+  (Forall2 EVR (fst (run_str x)) (fst (run_str (crlf x))) /\ PER (snd (run_str x)) (snd (run_str (crlf x)))).
+Proof. exact pipeline_crlf. Qed.
+Print Assumptions C14_pipeline_crlf.
+
+Theorem C14_pipeline_cr : forall x : list chr, nocr x ->
+  is_panic (snd (run_str x)) \/ is_panic (snd (run_str (cr x))) \/
+  (Forall2 EVR (fst (run_str x)) (fst (run_str (cr x))) /\ PER (snd (run_str x)) (snd (run_str (cr x)))).
+Proof. exact pipeline_cr. Qed.
+Print Assumptions C14_pipeline_cr.
+
+(* The scanner alone, for ALL fuels on both sides: related ends, and related token lists when both ends are proper. *)
+Theorem C14_scanner_break_style : forall md, brk_target md.
+Proof. exact scanner_brk. Qed.
+Print Assumptions C14_scanner_break_style.
+
+(* non-vacuity: a multi-line document with a folded quoted scalar, a block scalar and a comment *)
+Definition c14_doc : list N := [97; 58; 32; 34; 120; 10; 32; 121; 34; 10; 98; 58; 32; 124; 10; 32; 32; 122; 10; 35; 99; 10].
+Example C14_example_crlf :
+  Forall (fun c => c <> 13) c14_doc /\ snd (run_str c14_doc) = PDone /\ snd (run_str (crlf c14_doc)) = PDone
+  /\ map fst (fst (run_str c14_doc)) = map fst (fst (run_str (crlf c14_doc))).
+Proof. split; [repeat constructor; discriminate|]. vm_compute. repeat split; reflexivity. Qed.
